@@ -86,13 +86,13 @@ class Ctx:
         lo, hi = trange(ty)
         self.inputs.append((name, ty, v))
         self.assume.append(z3.And(v >= lo, v <= hi))
-        self.ex.assumptions = self.assume
+        self.ex.assumptions = self.assume + [c for _, c in self.cuts]
         return IntV(v, ty)
 
     def require(self, cond):
         """input precondition (documented validity of an argument)"""
         self.assume.append(cond)
-        self.ex.assumptions = self.assume
+        self.ex.assumptions = self.assume + [c for _, c in self.cuts]
 
     def set_tyenv(self, **kw):
         self.ex.tyenv.update(kw)
@@ -116,6 +116,10 @@ class Ctx:
         self.results[name or path] = v
         return v
 
+    def summarize(self, short_name, fn):
+        """use a contract (proved by another obligation) in place of a callee's body -- assume/guarantee composition"""
+        self.ex.summaries[short_name] = fn
+
     def ref(self, v):
         """pass a value by reference"""
         return symex.ConstRef(v)
@@ -137,7 +141,7 @@ class Ctx:
         s.add(self.state.pc)  # every claim / cut is about normal return of the calls made so far
         return s
 
-    def check_sat(self, extra, name):
+    def check_sat(self, extra, name, budget=None):
         """returns ('unsat'|'sat'|'unknown', model). Portfolio: both arithmetic back ends of z3, escalating timeouts
         (solver time on these div/mod-heavy queries varies by orders of magnitude between configurations)."""
         last = None
@@ -145,6 +149,8 @@ class Ctx:
         plan = [("old", 4, 0), ("new", 4, 0), ("old", 20, 7), ("new", 20, 7), ("old", 90, 13), ("new", 90, 13)]
         if T > 90:
             plan += [("old", T, 0), ("new", T, 0)]
+        if budget:
+            plan = [("old", 4, 0), ("new", 4, 0), ("new", budget, 5)]
         for cfg, tmo, seed in plan:
             s = self._solver(cfg, tmo, seed)
             for e in extra:
@@ -191,23 +197,37 @@ class Ctx:
         """intermediate lemma: proved under the same premises, then assumed (sound: it is valid whenever the function returns)"""
         self._prove("cut:" + name, formula, splits)
         self.cuts.append((name, formula))
+        self.ex.assumptions = self.assume + [c for _, c in self.cuts]
 
-    def lemma(self, name, formula):
-        """pure arithmetic lemma over fresh variables (no program terms): proved without premises, then assumed"""
+    def lemma(self, name, vars_, formula):
+        """pure arithmetic lemma over the free variables vars_ (no program terms): validity is proved by z3 (negation
+        unsat), then instances can be added with use_lemma"""
+        self.lemmas = getattr(self, "lemmas", {})
+        self.lemmas[name] = (vars_, formula)
         if self.shard[0] != 0:
-            self.cuts.append((name, formula))
             return
-        s = z3.Solver()
-        s.set("timeout", int(self.per_query_timeout * 1000))
-        s.add(z3.Not(formula))
-        t0 = time.time()
-        r = s.check()
-        self.queries += 1
-        self.solver_s += time.time() - t0
-        self.log.append(f"lemma:{name} {r}")
-        if r != z3.unsat:
-            raise Inconclusive(f"lemma {name}: {r}")
-        self.cuts.append((name, formula))
+        for cfg in ("old", "new"):
+            s = z3.Solver()
+            if cfg == "old":
+                s.set("arith.solver", 2)
+            s.set("timeout", 60000)
+            s.add(z3.Not(formula))
+            t0 = time.time()
+            r = s.check()
+            self.queries += 1
+            self.solver_s += time.time() - t0
+            self.log.append(f"lemma:{name} [{cfg}] {r}")
+            if r == z3.unsat:
+                return
+            if r == z3.sat:
+                raise Inconclusive(f"lemma {name} is false: {s.model()}")
+        raise Inconclusive(f"lemma {name}: unknown")
+
+    def use_lemma(self, name, *terms):
+        vars_, formula = self.lemmas[name]
+        inst = z3.substitute(formula, *[(v, t) for v, t in zip(vars_, terms)])
+        self.cuts.append((f"{name}@inst", inst))
+        self.ex.assumptions = self.assume + [c for _, c in self.cuts]
 
     def claim(self, name, formula, splits=None, kf=None):
         """kf: (finding id, predicate over inputs) -- when the finding is listed as known, the claim is proved outside the
@@ -250,9 +270,12 @@ class Ctx:
         if self.shard[0] != 0:
             self.vacuity_sat += 1
             return
-        r, m = self.check_sat([self.state.pc, cond], "reach:" + name)
+        r, m = self.check_sat([self.state.pc, cond], "reach:" + name, budget=25)
         if r == "sat":
             self.vacuity_sat += 1
+            return
+        if r == "unknown":
+            self.log.append(f"reach:{name} undecided within budget (not counted as a witness)")
             return
         raise Inconclusive(f"vacuity witness {name} not satisfiable ({r})")
 
